@@ -219,3 +219,196 @@ Example C11_nonvacuous :
   (* an instance that is NOT canonical: the theorem's hypothesis is a real restriction *)
   icanon (cA false false) false (mk [(s2p "n", PBool true)]) = false.
 Proof. repeat split; try (vm_compute; reflexivity). intro H. discriminate H. Qed.
+
+(* ---- the tie to the source, re-checked by the kernel on every run -------------------------------------
+   Gen/EqHashSrc.v is re-generated from typedpy/structures/structures.py (harness/genmods/py2v_eqhash.py):
+   Structure.__eq__, __ne__, __hash__, __str__ (with list_to_str / dict_to_str / to_str), __repr__, __getstate__,
+   __deepcopy__, __copy__, Field.__get__, Field.__serialize__, get_all_fields_by_name.  For EVERY instance (seen as
+   the Python object whose __dict__ is its public attributes plus typedpy's internal entries) what the source
+   computes NOW is what the hand-written model Struct/EqHash.v computes. *)
+From TP Require Import Base.PyOps Base.PyOps2 Base.PyObj Base.PyOpsEqHash Gen.EqHashSrc Struct.EqHashSrcProofs.
+
+Theorem C11_src_eq_is_model :
+  forall (c : classdef) (undef : bool) (num_str : num -> pystr) (str_repr : pystr -> pystr)
+           (enum_vrepr : pystr -> pystr -> pystr) (str_hash : pystr -> Z)
+           (mcall : pyval -> pystr -> list pyval -> res pyval) (h : heap) 
+           (a b : inst) (ta tb : option pyval),
+         class_view h c undef (i_cls a) ->
+         c_ok c = true ->
+         public_attrs a = true ->
+         public_attrs b = true ->
+         nodup_by pystr_eqb (nones_list a) = true ->
+         nodup_by pystr_eqb (nones_list b) = true ->
+         Src_Structure_eq (the_world num_str str_repr enum_vrepr str_hash mcall h) 
+           (inst_obj a ta) (inst_obj b tb) = Ok (PBool (inst_eq c undef a b)).
+Proof. exact C11_src_eq. Qed.
+
+Theorem C11_src_ne_is_model :
+  forall (c : classdef) (undef : bool) (num_str : num -> pystr) (str_repr : pystr -> pystr)
+           (enum_vrepr : pystr -> pystr -> pystr) (str_hash : pystr -> Z)
+           (mcall : pyval -> pystr -> list pyval -> res pyval) (h : heap) 
+           (a b : inst) (ta tb : option pyval),
+         class_view h c undef (i_cls a) ->
+         c_ok c = true ->
+         public_attrs a = true ->
+         public_attrs b = true ->
+         nodup_by pystr_eqb (nones_list a) = true ->
+         nodup_by pystr_eqb (nones_list b) = true ->
+         Src_Structure_ne (the_world num_str str_repr enum_vrepr str_hash mcall h) 
+           (inst_obj a ta) (inst_obj b tb) = Ok (PBool (negb (inst_eq c undef a b))).
+Proof. exact C11_src_ne. Qed.
+
+Theorem C11_src_field_get_is_model :
+  forall (c : classdef) (undef : bool) (num_str : num -> pystr) (str_repr : pystr -> pystr)
+           (enum_vrepr : pystr -> pystr -> pystr) (str_hash : pystr -> Z)
+           (mcall : pyval -> pystr -> list pyval -> res pyval) (h : heap) 
+           (x : inst) (t : option pyval) (k : pystr),
+         class_view h c undef (i_cls x) ->
+         c_ok c = true ->
+         public_attrs x = true ->
+         is_field c k = true ->
+         Src_Field_get (the_world num_str str_repr enum_vrepr str_hash mcall h) 
+           (fld_ref k) (inst_obj x t) (ref (i_cls x)) = Ok (getf c undef x k).
+Proof. exact C11_src_field_get. Qed.
+
+Theorem C11_src_str_is_model :
+  forall (num_str : num -> pystr) (str_repr : pystr -> pystr)
+           (enum_vrepr : pystr -> pystr -> pystr) (str_hash : pystr -> Z)
+           (mcall : pyval -> pystr -> list pyval -> res pyval) (h : heap) 
+           (x : inst) (t : option pyval),
+         heap_plain (the_world num_str str_repr enum_vrepr str_hash mcall h) ->
+         inst_str_ok x = true ->
+         Src_Structure_str (the_world num_str str_repr enum_vrepr str_hash mcall h) (inst_obj x t) =
+         Ok (PStr (inst_str num_str str_repr enum_vrepr x)).
+Proof. exact C11_src_str. Qed.
+
+Theorem C11_src_repr_is_model :
+  forall (num_str : num -> pystr) (str_repr : pystr -> pystr)
+           (enum_vrepr : pystr -> pystr -> pystr) (str_hash : pystr -> Z)
+           (mcall : pyval -> pystr -> list pyval -> res pyval) (h : heap) 
+           (x : inst) (t : option pyval),
+         heap_plain (the_world num_str str_repr enum_vrepr str_hash mcall h) ->
+         inst_str_ok x = true ->
+         Src_Structure_repr (the_world num_str str_repr enum_vrepr str_hash mcall h) (inst_obj x t) =
+         Ok (PStr (inst_str num_str str_repr enum_vrepr x)).
+Proof. exact C11_src_repr. Qed.
+
+Theorem C11_src_to_str_is_model :
+  forall (num_str : num -> pystr) (str_repr : pystr -> pystr)
+           (enum_vrepr : pystr -> pystr -> pystr) (str_hash : pystr -> Z)
+           (mcall : pyval -> pystr -> list pyval -> res pyval) (h : heap) 
+           (v : pyval),
+         heap_plain (the_world num_str str_repr enum_vrepr str_hash mcall h) ->
+         str_ok v = true ->
+         Src_to_str (the_world num_str str_repr enum_vrepr str_hash mcall h) v =
+         Ok (PStr (vs num_str str_repr enum_vrepr false v)).
+Proof. exact C11_src_to_str. Qed.
+
+Theorem C11_src_hash_is_model :
+  forall (num_str : num -> pystr) (str_repr : pystr -> pystr)
+           (enum_vrepr : pystr -> pystr -> pystr) (str_hash : pystr -> Z)
+           (mcall : pyval -> pystr -> list pyval -> res pyval) (h : heap) 
+           (x : inst) (t : option pyval),
+         heap_plain (the_world num_str str_repr enum_vrepr str_hash mcall h) ->
+         inst_str_ok x = true ->
+         Src_Structure_hash (the_world num_str str_repr enum_vrepr str_hash mcall h) (inst_obj x t) =
+         Ok (zint (inst_hash num_str str_repr enum_vrepr str_hash x)).
+Proof. exact C11_src_hash. Qed.
+
+Theorem C11_src_str_nested_is_model :
+  forall (num_str : num -> pystr) (str_repr : pystr -> pystr)
+           (enum_vrepr : pystr -> pystr -> pystr) (str_hash : pystr -> Z)
+           (mcall : pyval -> pystr -> list pyval -> res pyval) (h : heap) 
+           (ni : list (pystr * pyval)) (x : inst) (t : option pyval),
+         heap_plain (the_world num_str str_repr enum_vrepr str_hash mcall h) ->
+         ni_ok ni = true ->
+         inst_str_ok x = true ->
+         Src_Structure_str (the_world num_str str_repr enum_vrepr str_hash mcall h)
+           (inst_obj_nested ni x t) = Ok (PStr (inst_str num_str str_repr enum_vrepr x)).
+Proof. exact C11_src_str_nested. Qed.
+
+Theorem C11_src_hash_nested_is_model :
+  forall (num_str : num -> pystr) (str_repr : pystr -> pystr)
+           (enum_vrepr : pystr -> pystr -> pystr) (str_hash : pystr -> Z)
+           (mcall : pyval -> pystr -> list pyval -> res pyval) (h : heap) 
+           (ni : list (pystr * pyval)) (x : inst) (t : option pyval),
+         heap_plain (the_world num_str str_repr enum_vrepr str_hash mcall h) ->
+         ni_ok ni = true ->
+         inst_str_ok x = true ->
+         Src_Structure_hash (the_world num_str str_repr enum_vrepr str_hash mcall h)
+           (inst_obj_nested ni x t) = Ok (zint (inst_hash num_str str_repr enum_vrepr str_hash x)).
+Proof. exact C11_src_hash_nested. Qed.
+
+Theorem C11_src_copy_is_model :
+  forall (num_str : num -> pystr) (str_repr : pystr -> pystr)
+           (enum_vrepr : pystr -> pystr -> pystr) (str_hash : pystr -> Z)
+           (mcall : pyval -> pystr -> list pyval -> res pyval) (h : heap) 
+           (x : inst) (t : option pyval),
+         keys_ok x = true ->
+         Src_Structure_copy (the_world num_str str_repr enum_vrepr str_hash mcall h) (inst_obj x t) =
+         Ok (inst_obj (copy_inst x) t).
+Proof. exact C11_src_copy. Qed.
+
+Theorem C11_src_deepcopy_is_model :
+  forall (num_str : num -> pystr) (str_repr : pystr -> pystr)
+           (enum_vrepr : pystr -> pystr -> pystr) (str_hash : pystr -> Z)
+           (mcall : pyval -> pystr -> list pyval -> res pyval) (h : heap) 
+           (x : inst) (t : option pyval) (memo : pyval),
+         keys_ok x = true ->
+         alist_has (i_attrs x) n_skip_validation = false ->
+         class_field h (i_cls x) n_immutable = None ->
+         Src_Structure_deepcopy (the_world num_str str_repr enum_vrepr str_hash mcall h)
+           (inst_obj x t) memo = Ok (inst_obj (deepcopy_inst x) t).
+Proof. exact C11_src_deepcopy. Qed.
+
+Theorem C11_src_getstate_is_model :
+  forall (c : classdef) (undef : bool) (num_str : num -> pystr) (str_repr : pystr -> pystr)
+           (enum_vrepr : pystr -> pystr -> pystr) (str_hash : pystr -> Z)
+           (mcall : pyval -> pystr -> list pyval -> res pyval) (h : heap) 
+           (x : inst) (t : option pyval) (bases : list pystr),
+         class_view h c undef (i_cls x) ->
+         mro_view (the_world num_str str_repr enum_vrepr str_hash mcall h) c (i_cls x) bases ->
+         c_ok c = true ->
+         fields_nodup c = true ->
+         public_attrs x = true ->
+         (forall (n : pystr) (v : pyval),
+          is_field c n = true ->
+          mcall (fld_ref n) (s2p "__serialize__") [v] =
+          Src_Field_serialize (the_world num_str str_repr enum_vrepr str_hash mcall h) (fld_ref n) v) ->
+         Src_Structure_getstate (the_world num_str str_repr enum_vrepr str_hash mcall h)
+           (inst_obj x t) = Ok (PDict (skeys (state_of c x))) /\
+         (forall k : pystr, alist_get (state_of c x) k = alist_get (i_attrs (pickle_rt c x)) k).
+Proof. exact C11_src_getstate. Qed.
+
+Theorem C11_src_getstate_mro_is_model :
+  forall (c : classdef) (undef : bool) (num_str : num -> pystr) (str_repr : pystr -> pystr)
+           (enum_vrepr : pystr -> pystr -> pystr) (str_hash : pystr -> Z)
+           (mcall : pyval -> pystr -> list pyval -> res pyval) (h : heap) 
+           (x : inst) (t : option pyval) (levels : list (pystr * list pystr)),
+         class_view h c undef (i_cls x) ->
+         mro_levels (the_world num_str str_repr enum_vrepr str_hash mcall h) (i_cls x) levels ->
+         mro_merge (the_world num_str str_repr enum_vrepr str_hash mcall h) levels = fields_alist c ->
+         c_ok c = true ->
+         fields_nodup c = true ->
+         public_attrs x = true ->
+         (forall (n : pystr) (v : pyval),
+          is_field c n = true ->
+          mcall (fld_ref n) (s2p "__serialize__") [v] =
+          Src_Field_serialize (the_world num_str str_repr enum_vrepr str_hash mcall h) (fld_ref n) v) ->
+         Src_Structure_getstate (the_world num_str str_repr enum_vrepr str_hash mcall h)
+           (inst_obj x t) = Ok (PDict (skeys (state_of c x))).
+Proof. exact C11_src_getstate_mro. Qed.
+
+Print Assumptions C11_src_eq_is_model.
+Print Assumptions C11_src_ne_is_model.
+Print Assumptions C11_src_field_get_is_model.
+Print Assumptions C11_src_str_is_model.
+Print Assumptions C11_src_repr_is_model.
+Print Assumptions C11_src_to_str_is_model.
+Print Assumptions C11_src_hash_is_model.
+Print Assumptions C11_src_str_nested_is_model.
+Print Assumptions C11_src_hash_nested_is_model.
+Print Assumptions C11_src_copy_is_model.
+Print Assumptions C11_src_deepcopy_is_model.
+Print Assumptions C11_src_getstate_is_model.
+Print Assumptions C11_src_getstate_mro_is_model.
